@@ -8,8 +8,15 @@
     recognition and the name filter are modelled in Gallina and compared with ConfigParser on
     every generated configuration; the objects built from the sections (entries in order, group
     members with the IOS mask-to-wildcard conversion) are checked against the generator's
-    expectation on the public functions.  No end-to-end theorem over structured configurations
-    yet: partial. *)
+    expectation on the public functions.
+    Structured configurations: [C07_sections] - a configuration assembled from sections with
+    pairwise distinct headers (a header line, then at least one indented line) is read back as
+    exactly these sections, in order; [C07_noise] - a section that is neither an access list nor
+    an address group and mentions no access-group changes neither the access lists, nor their
+    bindings, nor the address groups.  What stays partial: the text level below the line
+    model (splitting the configuration text into lines, indentation, comment filter) and the
+    objects built from the sections are tied by correspondence; repeated headers (bodies append)
+    are covered by correspondence only. *)
 From V Require Import base.Prelude base.Strs gen.Tables model.Cfg model.Names model.Lex model.Config
   proofs.ConfigProofs.
 
@@ -24,6 +31,16 @@ Theorem C07_bindings_raw_partial : forall d bs, bindings d = BOk bs ->
     exists body l, In (k, body) d /\ In l body /\ binding_of_line l = Some (n, dir) /\
                    existsb (contains_sub "ip access-group") body = true.
 Proof. exact bindings_spec. Qed.
+
+Theorem C07_sections : forall secs,
+  NoDup (map fst secs) -> Forall (fun s => snd s <> []) secs ->
+  parse_dic (lines_of secs) = secs.
+Proof. exact parse_dic_sections. Qed.
+
+Theorem C07_noise : forall pl names d1 e d2, noise e ->
+  acl_sections pl names (d1 ++ e :: d2) = acl_sections pl names (d1 ++ d2)
+  /\ addgr_sections (d1 ++ e :: d2) = addgr_sections (d1 ++ d2).
+Proof. exact noise_irrelevant. Qed.
 
 Definition c07_example : res (list (string * list string * list string)) :=
   let text := "ip access-list extended A
